@@ -562,6 +562,21 @@ struct CGen {
       Pdc* side = g.keep(new PdcSide(*pin, *pout));
       s = "bndc[" + to_string(id) + "]"; return g.keep(new SepBoundaryCtc(*cb, *side));
     }
+    if (r.coin(20)) {
+      // SepFwdBwd(System): the set of the points satisfying every constraint of a system - one vector-valued inequality
+      // (p_a ; p_b) op 0 or two scalar constraints; described to the model as the intersection of the component sets
+      Poly pa = rand_poly(r, n), pb = rand_poly(r, n);
+      bool vec = r.coin(60); CmpOp opa = rand_op(r), opb = vec ? opa : rand_op(r);
+      int ia = nC++; g.leafdefs.push_back("C" + to_string(ia) + "=" + opname(opa) + "=" + pa.tok());
+      int ib = nC++; g.leafdefs.push_back("C" + to_string(ib) + "=" + opname(opb) + "=" + pb.tok());
+      Function* fa = make_fn(pa); Function* fb = make_fn(pb); Function* fv = make_vfn(pa, pb); g.fns.push_back(fa); g.fns.push_back(fb); g.fns.push_back(fv);
+      Array<const ExprSymbol> sx(n); for (int i = 0; i < n; i++) sx.set_ref(i, ExprSymbol::new_(("x" + to_string(i + 1)).c_str(), Dim::scalar()));
+      SystemFactory fac; fac.add_var(sx);
+      if (vec) fac.add_ctr(ExprCtr(ExprCopy().copy(fv->args(), sx, fv->expr()), opa));
+      else { fac.add_ctr(ExprCtr(ExprCopy().copy(fa->args(), sx, fa->expr()), opa)); fac.add_ctr(ExprCtr(ExprCopy().copy(fb->args(), sx, fb->expr()), opb)); }
+      System* sys = new System(fac);   // (kept alive: the separator refers to it)
+      s = "inter(SF" + to_string(ia) + ",SF" + to_string(ib) + ")"; return g.keep(new SepFwdBwd(*sys));
+    }
     if (r.coin(75)) { CmpOp op = rand_op(r); int id = new_poly(n, f, opname(op)); s = "SF" + to_string(id); return g.keep(new SepFwdBwd(*f, op)); }
     int id = new_poly(n, f, "le"); Boxes U, V; g.cover(1, U, V); int sid = g.nS++;
     g.leafdefs.push_back("S" + to_string(sid) + "=" + Gen::tokB(U) + "=" + Gen::tokB(V));
